@@ -303,6 +303,32 @@ fn main() {
             let rule = format!("{} || SYSTEMATIC PART: for fixed small programs (coverage.systematic_enumeration) every schedule with at most 1 (quick) / 2 (thorough) pre-emptions over every base order of the actors, same oracle. || STRESS PART: uncontrolled real-thread runs (counter pairs; see DESIGN 4.C).", main.rule);
             finish(main.id, main.level, tier, seed, &rule, &main.assumptions, &rep, t0.elapsed().as_secs_f64(), &findings)
         }
+        "C17" if replay.is_none() => {
+            use skv_verif::engine_sched::{sched_prop, Flavor};
+            let findings = Findings::load();
+            let defs = vec![(sched_prop("C17", Flavor::C17), 1500u64, 30000u64), (sched_prop("C17", Flavor::C17Stall), 1200, 24000), (sched_prop("C17", Flavor::C17Permit), 1200, 24000), (sched_prop("C17", Flavor::C17Fail), 800, 16000), (sched_prop("C17", Flavor::C17Locks), 1500, 30000)];
+            let seed = seed_from_env();
+            let t0 = Instant::now();
+            let mut rep = Report::default();
+            run_replays(&defs[0].0, &findings, &mut rep);
+            for (i, (def, q, t)) in defs.iter().enumerate() {
+                rep.merge(run_prop(def, cases_for(tier, *q, *t), seed, i as u64, &findings));
+            }
+            {
+                // real threads and the store's own background tasks: one case at a time, nothing else in the process
+                let stress = skv_verif::engine_sched::stress17_prop(if tier == "thorough" { 600 } else { 150 });
+                let jobs = std::env::var("VERIF_JOBS").ok();
+                std::env::set_var("VERIF_JOBS", "1");
+                rep.merge(run_prop(&stress, cases_for(tier, 6, 40), seed, 9, &findings));
+                match jobs {
+                    Some(j) => std::env::set_var("VERIF_JOBS", j),
+                    None => std::env::remove_var("VERIF_JOBS"),
+                }
+            }
+            let def = &defs[0].0;
+            let rule = format!("{} || STRESS PART: {}", def.rule, skv_verif::engine_sched::stress17_prop(1).rule);
+            finish(def.id, def.level, tier, seed, &rule, &def.assumptions, &rep, t0.elapsed().as_secs_f64(), &findings)
+        }
         "C17" => {
             use skv_verif::engine_sched::{sched_prop, Flavor};
             run_model(vec![(sched_prop("C17", Flavor::C17), 1500, 30000), (sched_prop("C17", Flavor::C17Stall), 1200, 24000), (sched_prop("C17", Flavor::C17Permit), 1200, 24000), (sched_prop("C17", Flavor::C17Fail), 800, 16000), (sched_prop("C17", Flavor::C17Locks), 1500, 30000)], tier, replay)
